@@ -191,6 +191,45 @@ pub fn small_table(prop: &str, kinds: &[Kind], cover_methods: &[Method], tier: &
     }
 }
 
+/// Deeper small scopes at automaton level: E1 (and E7 for the leftmost kinds) decide each automaton
+/// for *all* haystacks in well under a millisecond, so far more pattern sets can be covered this way
+/// than with haystack enumeration: byte-wise, one embedding, default settings.
+pub fn deep_small_scope(prop: &str, kinds: &[Kind], tier: &str, acc: &mut Acc, bounds: &mut Vec<String>) {
+    let thorough = tier_is_thorough(tier);
+    let lf = kinds.contains(&Kind::LF);
+    let o = if lf { Order::SetsBothWays } else { Order::Sets };
+    let scopes: Vec<Scope> = if thorough {
+        vec![
+            Scope::new(2, 5, 4, o, 0, 0),
+            Scope::new(2, 6, 3, o, 0, 0),
+            Scope::new(3, 4, 3, o, 0, 0),
+            Scope::new(2, 4, 5, Order::Sets, 0, 0),
+        ]
+    } else {
+        vec![Scope::new(2, 5, 3, o, 0, 0), Scope::new(2, 4, 4, Order::Sets, 0, 0), Scope::new(3, 3, 3, Order::Sets, 0, 0)]
+    };
+    let emb = vec![enumr::Emb::bytes("abc", b"abc")];
+    for scope in &scopes {
+        let a = e2::run_scope(scope, &emb, |ctx, acc| {
+            for &kind in kinds {
+                let cfg = Cfg::new(Variant::Byte, kind, None, Entry::Builder);
+                let origin = e2::case_json(&cfg, &ctx.pats, None);
+                util::set_case(prop, "table", origin.clone());
+                if let Some(b) = e2::build_or_violate(prop, "table", cfg, &ctx.pats, None, acc) {
+                    if e1::check_table(prop, &b, &ctx.pats, &origin, acc).is_some() && kind != Kind::Std {
+                        crate::lm::check_leftmost(prop, &b, &ctx.pats, &origin, acc);
+                    }
+                }
+            }
+        });
+        acc.merge(a);
+        bounds.push(format!("E1{} (all haystacks per automaton) on every byte-wise automaton of {}", if kinds.iter().any(|k| *k != Kind::Std) { "+E7" } else { "" }, scope.name()));
+        if util::stopped() {
+            break;
+        }
+    }
+}
+
 pub struct Outcome {
     pub acc: Acc,
     pub spec_level: &'static str,
@@ -207,6 +246,9 @@ pub fn run_property(prop: &str, tier: &str) -> Option<Outcome> {
             e2_search(prop, Kind::Std, &[Method::Ovl, Method::OvlIt], tier, &mut acc, &mut bounds);
             pop_table(prop, &[Kind::Std], &[Method::Ovl, Method::OvlIt], tier, &mut acc, &mut bounds);
             small_table(prop, &[Kind::Std], &[Method::Ovl, Method::OvlIt], tier, &mut acc, &mut bounds);
+            deep_small_scope(prop, &[Kind::Std], tier, &mut acc, &mut bounds);
+            deep_small_scope(prop, &[Kind::Std], tier, &mut acc, &mut bounds);
+            deep_small_scope(prop, &[Kind::Std], tier, &mut acc, &mut bounds);
             crate::scale::scale_cases(prop, &[Kind::Std], &[Method::Ovl, Method::OvlIt], tier, &mut acc, &mut bounds);
             ("model_checking", "E2: every (pattern sequence, embedding, haystack) of the listed scopes; non-trivial = the oracle lists two matches that overlap or share an end".into(), vec![])
         }
@@ -221,6 +263,7 @@ pub fn run_property(prop: &str, tier: &str) -> Option<Outcome> {
             e2_search(prop, Kind::LL, &[Method::Lm], tier, &mut acc, &mut bounds);
             pop_table(prop, &[Kind::LL], &[Method::Lm], tier, &mut acc, &mut bounds);
             small_table(prop, &[Kind::LL], &[Method::Lm], tier, &mut acc, &mut bounds);
+            deep_small_scope(prop, &[Kind::LL], tier, &mut acc, &mut bounds);
             crate::scale::scale_cases(prop, &[Kind::LL], &[Method::Lm], tier, &mut acc, &mut bounds);
             ("model_checking", "states = pairs (iterator configuration, reference-machine state) of the leftmost product exploration + table states, transitions = pairs x labels; E2 cases: non-trivial = some occurrence is suppressed and leftmost-longest differs from leftmost-first".into(), vec!["the iterator model of E7 mirrors LestmostFindIterator::next; it is replayed on the public iterator for every explored pair".into()])
         }
@@ -228,6 +271,7 @@ pub fn run_property(prop: &str, tier: &str) -> Option<Outcome> {
             e2_search(prop, Kind::LF, &[Method::Lm], tier, &mut acc, &mut bounds);
             pop_table(prop, &[Kind::LF], &[Method::Lm], tier, &mut acc, &mut bounds);
             small_table(prop, &[Kind::LF], &[Method::Lm], tier, &mut acc, &mut bounds);
+            deep_small_scope(prop, &[Kind::LF], tier, &mut acc, &mut bounds);
             crate::scale::scale_cases(prop, &[Kind::LF], &[Method::Lm], tier, &mut acc, &mut bounds);
             ("model_checking", "states = pairs (iterator configuration, reference-machine state) of the leftmost product exploration + table states, transitions = pairs x labels; E2 cases: non-trivial = some occurrence is suppressed and leftmost-first differs from leftmost-longest".into(), vec!["the iterator model of E7 mirrors LestmostFindIterator::next; it is replayed on the public iterator for every explored pair".into()])
         }
